@@ -309,8 +309,9 @@ void Model::route(int sender, const wire::Msg &m, int addressed) {
     Exp e;
     e.from_bus = sender < 0;
     e.m = m;
-    e.what = "unicast delivery";
-    e.prop = "C05";
+    e.what = hold_order_key ? "held message released to the started service" : "unicast delivery";
+    e.prop = hold_order_key ? "C19" : "C05";
+    if (hold_order_key) { e.order_key = hold_order_key; e.pre = true; }
     emit(addressed, e);
     if (sender >= 0) {
       if (m.type == wire::T_CALL && !(m.flags & wire::FL_NO_REPLY_EXPECTED)) {
@@ -611,6 +612,7 @@ void Model::driver(int c, const wire::Msg &m) {
       q.push_back({c, allow, dnq});
       name_owner_changed(name, "", U(c));
       name_signal(c, "NameAcquired", name);
+      activation_complete(name, c);
       reply_ok(c, m, {wire::Value::u32(1)});
       probes["reqname_reply_1"]++;
       return;
@@ -709,6 +711,14 @@ void Model::driver(int c, const wire::Msg &m) {
     reply_ok(c, m, {wire::Value::array("s", el)}, true);
     return;
   }
+  if (member == "ListActivatableNames") {
+    if (!m.body.empty()) { reply_err(c, m, ""); return; }
+    std::vector<wire::Value> el;
+    el.push_back(wire::Value::string(BUS));
+    for (auto &n : activatable) el.push_back(wire::Value::string(n));
+    reply_ok(c, m, {wire::Value::array("s", el)}, true);
+    return;
+  }
   if (member == "ListQueuedOwners") {
     if (m.body.size() != 1 || !arg_s(0)) { reply_err(c, m, ""); return; }
     std::string name = m.body[0].str;
@@ -798,6 +808,16 @@ void Model::driver(int c, const wire::Msg &m) {
     int o = owner_of(name);
     if (o < 0) { reply_err(c, m, ""); return; }
     reply_ok(c, m, {wire::Value::u32(member == "GetConnectionUnixUser" ? conns[(size_t)o].uid : conns[(size_t)o].pid)});
+    return;
+  }
+  if (member == "StartServiceByName") {
+    if (!(m.body.size() == 2 && arg_s(0) && arg_u(1))) { reply_err(c, m, ""); return; }
+    std::string name = m.body[0].str;
+    // "the executable associated with a name": without a service file there is nothing to start, owner or not
+    // (the documents do not say which of the two answers wins; the service-file lookup comes first here)
+    if (name != BUS && !activatable.count(name)) { reply_err(c, m, ""); probes["start_unknown_service"]++; return; }
+    if (name == BUS || owner_of(name) >= 0) { reply_ok(c, m, {wire::Value::u32(2)}); probes["start_already_running"]++; return; }   // DBUS_START_REPLY_ALREADY_RUNNING
+    activation_join(name, c, m, true);
     return;
   }
   if (member == "GetId" && !m.body.empty()) { reply_err(c, m, ""); return; }
@@ -993,6 +1013,12 @@ void Model::process(int c, const wire::Msg &orig) {
     return;
   }
   int R = owner_of(dest);
+  if (R < 0 && activatable.count(dest) && !(m.flags & wire::FL_NO_AUTO_START)) {
+    // auto-start: the message is held until the service has taken the name (or the start fails)
+    activation_join(dest, c, m, false);
+    route_matches(c, m, -1, false);     // eavesdroppers may see it now
+    return;
+  }
   if (R < 0) {
     probes["dest_missing"]++;
     {
@@ -1015,6 +1041,95 @@ void Model::process(int c, const wire::Msg &orig) {
   }
   if (R == c) probes["send_to_self"]++;
   route(c, m, R);
+}
+
+// ------------------------------------------------------------------ C19: activation
+
+void Model::activation_join(const std::string &name, int c, const wire::Msg &m, bool start_call) {
+  auto it = activations.find(name);
+  if (it == activations.end()) {
+    Activation a;
+    a.started_us = now_us;
+    activations[name] = a;
+    activation_starts++;
+    probes["activation_started"]++;
+    it = activations.find(name);
+  } else probes["activation_joined_pending"]++;
+  it->second.waiters.push_back({c, m, start_call});
+}
+
+void Model::activation_complete(const std::string &name, int owner) {
+  auto it = activations.find(name);
+  if (it == activations.end()) return;
+  Activation a = it->second;
+  activations.erase(it);
+  probes["activation_completed"]++;
+  int key = 0;
+  for (auto &w : a.waiters) {
+    if (w.c < 0 || (size_t)w.c >= conns.size()) continue;
+    if (w.start_call) {
+      if (conns[(size_t)w.c].alive && !(w.m.flags & wire::FL_NO_REPLY_EXPECTED)) {
+        // DBUS_START_REPLY_SUCCESS; not ordered against the name signals of the same event (it may go out when the
+        // service record is created, before NameAcquired)
+        Exp e;
+        e.from_bus = true;
+        e.m = wire::Msg::method_return(1, w.m.serial, U(w.c), {wire::Value::u32(1)});
+        e.m.set_field(wire::F_SENDER, wire::Value::string(BUS));
+        e.what = "reply to StartServiceByName";
+        e.prop = "C19";
+        emit_from_bus(w.c, e);
+      }
+      continue;
+    }
+    if (!conns[(size_t)w.c].alive) { probes["held_message_of_vanished_sender_dropped"]++; continue; }   // the sender has gone: its message goes nowhere
+    if (conns[(size_t)w.c].closing) {
+      // the sender has closed its socket but the bus has not processed the disconnect yet: whether it still counts
+      // as connected when the message is released is a race the documents leave open
+      Exp e;
+      e.m = w.m;
+      e.optional = true;
+      e.what = "held message of a sender that is going away";
+      e.prop = "C19";
+      emit(owner, e);
+      probes["held_message_of_closing_sender"]++;
+      continue;
+    }
+    hold_order_key = ++key;
+    route(w.c, w.m, owner);
+    hold_order_key = 0;
+    probes["held_message_released"]++;
+  }
+  if (key >= 2) probes["several_held_messages_released"]++;
+}
+
+void Model::activation_failed(const std::string &name, const char *why) {
+  auto it = activations.find(name);
+  if (it == activations.end()) return;
+  Activation a = it->second;
+  activations.erase(it);
+  // (the caller opens the event: several activations that time out in one sweep fail in an order the model cannot know)
+  probes[std::string("activation_failed_") + why]++;
+  if (a.waiters.size() >= 2) probes["activation_failure_several_waiters"]++;
+  for (auto &w : a.waiters) {
+    if (w.c < 0 || (size_t)w.c >= conns.size() || !conns[(size_t)w.c].alive) continue;
+    // exactly one error per waiting method call; for held messages of other types an error is admitted, not required
+    Exp e;
+    e.from_bus = true;
+    e.m = wire::Msg::error(1, w.m.serial, U(w.c), E_UNKNOWN);
+    e.m.set_field(wire::F_SENDER, wire::Value::string(BUS));
+    e.any_error_name = true;
+    e.ignore_body = true;
+    e.optional = w.m.type != wire::T_CALL || (w.m.flags & wire::FL_NO_REPLY_EXPECTED) != 0;
+    e.what = "error: the service could not be started";
+    e.prop = "C19";
+    emit_from_bus(w.c, e);
+  }
+}
+
+std::vector<std::string> Model::overdue_activations() const {
+  std::vector<std::string> v;
+  for (auto &kv : activations) if (now_us >= kv.second.started_us + service_start_timeout_ms * 1000) v.push_back(kv.first);
+  return v;
 }
 
 // ------------------------------------------------------------------ matching observed against expected
